@@ -33,7 +33,7 @@ func applyConfig(base *Case, cf uconfig) *Case {
 	}
 	for _, n := range base.Graph.Nodes {
 		fam := cf.Family[n.Type]
-		if (n.Type == "Query" || n.Type == "") && fam == "UR" {
+		if (n.Type == "Query" || n.Type == "") && (fam == "UR" || fam == "UM") {
 			fam = "R" // there is no resolver twin of UQuery / of the schema-level root object
 		}
 		if n.Type == "" && fam == "AX" {
@@ -47,6 +47,9 @@ func applyConfig(base *Case, cf uconfig) *Case {
 	for tn, fam := range cf.Family {
 		if fam == "UR" && tn != "" && tn != "Query" {
 			c.GoType[tn] = "R" + base.GoType[tn]
+		}
+		if fam == "UM" && tn != "" && tn != "Query" {
+			c.GoType[tn] = "M" + base.GoType[tn]
 		}
 	}
 	c.Register = append([]string{}, base.Register...)
@@ -128,9 +131,9 @@ func genCaseC02(t *rapid.T) *c02Case {
 	sort.Strings(tnames)
 	for i := 0; i < 2; i++ {
 		any := i == 1
-		fams := []string{"R", "UR", "X"}
+		fams := []string{"R", "UR", "UM", "X"}
 		if any {
-			fams = []string{"R", "UR", "A", "AX"}
+			fams = []string{"R", "UR", "UM", "A", "AX"}
 		}
 		cf := uconfig{Name: fmt.Sprintf("mixed-any=%v", any), Any: any, Family: map[string]string{}, RegAll: rapid.Bool().Draw(t, fmt.Sprintf("mixreg%d", i))}
 		rootFams := []string{"R", "X"}
